@@ -14,7 +14,7 @@ from .. import simgen, simprop
 ID = "C10"
 FAMILY = "C10"
 VARIANTS = {"quick": ("asan",), "thorough": ("asan", "rel")}
-BUDGET = {"quick": dict(examples=16000, seconds=60), "thorough": dict(examples=400000, seconds=540)}
+BUDGET = {"quick": dict(examples=80000, seconds=55), "thorough": dict(examples=2000000, seconds=540)}
 NONTRIVIAL = {"end-with-obligations", "blocked-wait_ev", "blocked-wait_proc", "delivered-interrupt",
               "restart", "stop-self", "stop-other", "wait-ended-by-timeout"}
 RULE = ("Hypothesis-generated scenarios from every profile (timing, mutex, queueing, pool, wakeup, lifecycle, buffer, "
